@@ -289,9 +289,47 @@ def _is_id_source(e: ast.AST) -> bool:
     return False
 
 
-def id_truth_tests(fn: ast.AST) -> List[Tuple[int, str, str]]:
+_ID_KEYS = ("element_id", "insertion_id", "anchor_id", "subvar_id")
+
+
+def id_truth_tests(fn: ast.AST, class_consts=None) -> List[Tuple[int, str, str]]:
     """An element id may be 0 (and an alias may be the empty string): `if not element_id`, `x if shimmed_id else ..`
-    treats a VALID id as absent.  Absence is `is None`."""
+    treats a VALID id as absent.  Absence is `is None`.  Ids read from a spec dict count too: `d.get("element_id")`,
+    `d[key]` with `key` taken from a table of id field names (class constants resolved through `class_consts`)."""
+    class_consts = class_consts or {}
+    assigned = {}
+    for n in ast.walk(fn):
+        if isinstance(n, ast.Assign) and len(n.targets) == 1 and isinstance(n.targets[0], ast.Name):
+            assigned.setdefault(n.targets[0].id, []).append(n.value)
+
+    def strings_of(e, depth=0):
+        out = []
+        for x in ast.walk(e):
+            if isinstance(x, ast.Constant) and isinstance(x.value, str):
+                out.append(x.value)
+            elif isinstance(x, ast.Attribute) and isinstance(x.value, ast.Name) and x.value.id in ("self", "cls") and x.attr in class_consts and depth < 2:
+                c = class_consts[x.attr]
+                # of a table {method: field name} the VALUES are what a lookup returns
+                vals = c.values if isinstance(c, ast.Dict) else [c]
+                for v in vals:
+                    out += strings_of(v, depth + 1)
+        return out
+
+    def key_is_id(k) -> bool:
+        if isinstance(k, ast.Constant):
+            return k.value in _ID_KEYS
+        if isinstance(k, ast.Name) and k.id in assigned:
+            ss = [t for v in assigned[k.id] for t in strings_of(v)]
+            return bool(ss) and all(t in _ID_KEYS for t in ss)
+        return False
+
+    def dict_id_read(e) -> bool:
+        if isinstance(e, ast.Call) and isinstance(e.func, ast.Attribute) and e.func.attr == "get" and e.args:
+            return key_is_id(e.args[0])
+        if isinstance(e, ast.Subscript) and not isinstance(e.slice, ast.Slice):
+            return key_is_id(e.slice)
+        return False
+
     id_names: Set[str] = set()
     changed = True
     while changed:
@@ -299,12 +337,12 @@ def id_truth_tests(fn: ast.AST) -> List[Tuple[int, str, str]]:
         for n in ast.walk(fn):
             if isinstance(n, ast.Assign) and len(n.targets) == 1 and isinstance(n.targets[0], ast.Name):
                 v = n.value
-                if (_is_id_source(v) or (isinstance(v, ast.Name) and v.id in id_names)) and n.targets[0].id not in id_names:
+                if (_is_id_source(v) or dict_id_read(v) or (isinstance(v, ast.Name) and v.id in id_names)) and n.targets[0].id not in id_names:
                     id_names.add(n.targets[0].id)
                     changed = True
 
     def is_id(e):
-        return _is_id_source(e) or (isinstance(e, ast.Name) and e.id in id_names)
+        return _is_id_source(e) or dict_id_read(e) or (isinstance(e, ast.Name) and e.id in id_names)
 
     out = []
 
